@@ -33,9 +33,9 @@ ASSUMPTIONS = [
 BUDGET = {'quick': 16 * 1200, 'thorough': 16 * 15000}
 FLOORS = {'mode_edits': 0.3, 'alias_edit_or_swap': 0.2}
 
-EDIT_KINDS = ['value', 'value', 'swap_compat', 'swap_drop', 'add_arg', 'del_arg', 'add_tag', 'remove_tag',
+EDIT_KINDS = ['value', 'value', 'swap_compat', 'swap_drop', 'swap_direct', 'add_arg', 'del_arg', 'add_tag', 'remove_tag',
               'alias_create', 'alias_break', 'move', 'list_append', 'list_pop', 'dict_set', 'dict_del']
-_FNS = ['things:f2', 'things:h1', 'things:Base', 'things:Other', 'things:LeafCls']
+_FNS = ['things:f2', 'things:h1', 'things:Base', 'things:Other', 'things:LeafCls', 'things:kwf']
 
 
 @st.composite
@@ -117,9 +117,10 @@ def _objects(root):
 
 _PARAMS = {things.f2: ['x', 'y', 'child'], things.h1: ['a', 'b', 'c', 'd', 'e'],
            things.Base: ['x', 'y', 'child'], things.Other: ['x', 'y', 'child'],
-           things.Mid: ['x', 'y', 'child'], things.LeafCls: ['x', 'y', 'child', 'extra']}
+           things.Mid: ['x', 'y', 'child'], things.LeafCls: ['x', 'y', 'child', 'extra'],
+           things.kwf: ['a', 'z0', 'z1'], things.kwg: ['a', 'z0', 'z1']}
 _COMPAT = {things.f2: things.Base, things.Base: things.Other, things.Other: things.f2,
-           things.LeafCls: things.Base, things.Mid: things.Base}
+           things.LeafCls: things.Base, things.Mid: things.Base, things.kwf: things.kwg, things.kwg: things.kwf}
 
 
 def _reaches(a, b):
@@ -149,6 +150,14 @@ def apply_edit(root, e, top_only=False):
       return None
     fdl.update_callable(b, new_fn)
     return kind
+  if kind == 'swap_direct':
+    # kwf and kwg have the same signature: the swapped Buildable is assembled without
+    # update_callable, so `new` does not depend on the function the diff is applied with
+    other = {things.kwf: things.kwg, things.kwg: things.kwf}.get(b.__fn_or_cls__)
+    if other is None:
+      return None
+    object.__setattr__(b, '__fn_or_cls__', other)
+    return 'swap_compat_direct'
   if kind == 'swap_drop':
     new_fn = things.h1 if b.__fn_or_cls__ is not things.h1 else things.f2
     fdl.update_callable(b, new_fn, drop_invalid_args=True)
